@@ -130,3 +130,37 @@ def extra(ctx, args):
     ctx.ok(lrule, "<self-test replay>", f"{fired} breaking variants reported, {silent} behaviour-preserving variants silent, "
            f"{len(skipped)} skipped because their edit no longer applies to this tree")
     ctx.notes.append(f"thorough: self-test replay fired={fired} silent={silent} skipped={skipped}")
+    # behaviour-preserving refactorings of this property's code (DESIGN 8e): the check must stay silent on each
+    import glob
+    import shutil
+    import subprocess
+    import sys
+    import tempfile
+    here = os.path.dirname(os.path.dirname(os.path.abspath(__file__)))
+    pats = sorted(glob.glob(os.path.join(here, "refactors", f"{ctx.pid}-r*", "patch.diff")))
+    if pats and shutil.which("patch"):
+        def one(pf):
+            tmp = tempfile.mkdtemp(prefix="osuverif-rf-")
+            try:
+                dst = os.path.join(tmp, "src", "ocean_science_utilities")
+                shutil.copytree(os.path.join(args.root, "src", "ocean_science_utilities"), dst, ignore=shutil.ignore_patterns("__pycache__"))
+                pr = subprocess.run(["patch", "-s", "-p1", "-i", pf], cwd=tmp, capture_output=True, text=True)
+                if pr.returncode != 0:
+                    return pf, "skipped", "patch no longer applies"
+                env = dict(os.environ)
+                env["OSU_VERIF_NO_EVIDENCE"] = "1"
+                r = subprocess.run([sys.executable, "-B", "-m", "osuverif.main", ctx.pid, "--root", tmp, "--tier", "quick"], cwd=here,
+                                   capture_output=True, text=True, env=env, timeout=900)
+                return pf, ("silent" if r.returncode == 0 else "loud"), r.stdout[-400:]
+            finally:
+                shutil.rmtree(tmp, ignore_errors=True)
+        with ThreadPoolExecutor(max_workers=8) as ex:
+            rr = list(ex.map(one, pats))
+        for pf, st, out in rr:
+            if st == "loud":
+                ctx.unsure(f"R{ctx.pid[1:]}.live", f"refactor:{os.path.basename(os.path.dirname(pf))}",
+                           "the check is not silent on a stored behaviour-preserving refactoring: the checker, not the repository, "
+                           "needs attention", derived=out[-200:])
+        ctx.ok(f"R{ctx.pid[1:]}.live", "<refactoring replay>",
+               f"{sum(1 for _, st, _ in rr if st == 'silent')} stored behaviour-preserving refactorings silent, "
+               f"{sum(1 for _, st, _ in rr if st == 'skipped')} skipped because their patch no longer applies")
